@@ -204,7 +204,8 @@ func runC19(k *kernel.K) {
 		}
 		m.under = &scriptBody{data: bodyBytes(i+1, 'm', size), errAt: -1, eofWith: w.Chance(1, 2)}
 		for j, nch := 0, w.Draw(8); j < nch; j++ {
-			m.under.chunks = append(m.under.chunks, []int{1, 7, 100, 4096, 32768}[w.Draw(5)])
+			// (0: a read that returns no bytes and no error, which io.Reader permits)
+			m.under.chunks = append(m.under.chunks, []int{1, 7, 100, 4096, 32768, 0}[w.Pick([]int{3, 3, 3, 3, 3, 2})])
 		}
 		if w.Chance(1, 6) && size > 0 {
 			m.under.errAt = w.Draw(size)
@@ -212,6 +213,11 @@ func runC19(k *kernel.K) {
 		}
 		for j, ns := 0, 1+w.Draw(6); j < ns; j++ {
 			m.sizes = append(m.sizes, []int{1, 3, 64, 512, 4096, 32768, 100000}[w.Draw(7)])
+		}
+		if w.Chance(1, 5) && !large {
+			// an empty read buffer somewhere in the cycle (never the only size)
+			m.sizes = append(m.sizes, 0)
+			k.Probe("zero_length_read_buffer")
 		}
 		if w.Chance(1, 6) {
 			m.maxReads = 1 + w.Draw(4)
